@@ -68,6 +68,17 @@ type vttModel struct {
 
 func vttDenote(m vttModel, withID bool) string { return vttDenoteX(m, withID, false) }
 
+// vttCueLines keeps the cue lines of a denotation (timing, settings, comments, voices, runs)
+func vttCueLines(d string) string {
+	var out []string
+	for _, l := range strings.Split(d, "\n") {
+		if strings.HasPrefix(l, "cue ") || strings.HasPrefix(l, "  | ") {
+			out = append(out, l)
+		}
+	}
+	return strings.Join(out, "\n")
+}
+
 // vttDenoteX with dropSpace leaves white-space characters out of the text (used for renderings that put white space
 // of their own between an inline timestamp and the tag that follows it)
 func vttDenoteX(m vttModel, withID, dropSpace bool) string {
@@ -124,6 +135,10 @@ func vttGenModel(r *fw.Rand, forWriter bool) vttModel {
 	var m vttModel
 	if r.P(1, 3) {
 		m.TSMap = &[2]int64{genTimeMs(r, 100), r.I64n(1 << 33)}
+		if r.P(1, 3) {
+			// the maps that packagers put on every segment: the identity, or both clocks at the same instant
+			m.TSMap = fw.Pick(r, []*[2]int64{{0, 0}, {10000, 900000}, {1000, 90000}, {0, 900000}})
+		}
 	}
 	for k := 0; k < r.Intn(3); k++ {
 		blk := []string{fw.Pick(r, []string{"::cue {", "::cue(b) {", "::cue(.red) {"})}
@@ -908,6 +923,27 @@ func c02Reader(c *fw.Ctx) fw.Outcome {
 		exp, have := vttDenoteX(expModel, true, drop), vttDenoteX(vttProject(got), true, drop)
 		if exp != have {
 			return fw.Bad(key, string(doc), "WebVTT reader, rendering {%s}: %s\ndocument: %q", o, firstDiff(exp, have), trunc(string(doc), 1200))
+		}
+		if k == 3 {
+			// what was read is a cue list like any other: written and read again it denotes the same cues (lines, tags,
+			// voices, timestamps, settings; identifiers are renumbered and the STYLE blocks merged by the writer)
+			var b2 bytes.Buffer
+			var again *astisub.Subtitles
+			var err2 error
+			if p := guard(func() {
+				if err2 = got.WriteToWebVTT(&b2); err2 == nil {
+					again, err2 = astisub.ReadFromWebVTT(bytes.NewReader(b2.Bytes()))
+				}
+			}); p != "" || (err2 != nil && len(got.Items) > 0) {
+				return fw.Bad(key, string(doc), "WebVTT: the list read from a document cannot be written and read again: %v %s | document: %q", err2, p, trunc(string(doc), 900))
+			}
+			if again != nil {
+				a, b := vttCueLines(vttDenoteX(vttProject(got), false, drop)), vttCueLines(vttDenoteX(vttProject(again), false, drop))
+				if a != b {
+					return fw.Bad(key, string(doc), "WebVTT: read, written and read again the cues differ: %s | first document: %q | second document: %q", firstDiff(a, b), trunc(string(doc), 700), trunc(b2.String(), 700))
+				}
+				c.Count("read_write_read_documents", 1)
+			}
 		}
 		c.Feature(fmt.Sprintf("read eol=%q bom=%v id=%d short=%v tabs=%v ts=%v", o.eol, o.bom, o.idKind, o.shortTime, o.tabs, o.tsBeforeTags))
 		if c.Idx%4 == 3 {
